@@ -6,7 +6,9 @@ package main
 //   ty i|s|t = int / string / struct{A int; B string};  element tokens: 3, -1 | ~ab (~ = "") | 2~b
 //   slice nil | [e,e] | [e,e|h,h]  (h = hidden elements between len and cap)    map nil | {k:v,…}   fn f<k> | fnil
 // Observation: canonical rendering of the result (nil and empty not distinguished, maps sorted by key token,
-// Keys/Values sorted), `panic`; ` mutated` is appended when any input slice (up to cap) or input map changed.
+// Keys/Values sorted), `panic`; ` mutated` is appended when any input slice (up to cap) or input map changed;
+// ` aliased` when writing through a result that the doc comment calls new (Dedupe, DropEq, DropWhile, Flatten, Merge,
+// Zip, GroupBy, DuplicateSlice, DuplicateMap) is visible in an input.
 // The function families (indexed by k) are the same arithmetic on `ord(element)` as in the Lean file.
 
 import (
@@ -331,6 +333,37 @@ func (in *c03Inputs[T]) unchanged() bool {
 	return true
 }
 
+// c03ProbeSlice writes through a result that the doc comment calls "new": every cell, then an append into any
+// spare capacity.  If an input snapshot changes, the result shares storage with the input.
+func c03ProbeSlice[T comparable, E any](in *c03Inputs[T], res []E, out string) string {
+	var zero E
+	for i := range res {
+		res[i] = zero
+	}
+	res = append(res, zero, zero, zero)
+	_ = res
+	if !in.unchanged() {
+		in.checks = nil
+		return out + " aliased"
+	}
+	return out
+}
+
+func c03ProbeMap[T comparable, K comparable, V any](in *c03Inputs[T], res map[K]V, out string, v V) string {
+	var zero K
+	if res != nil {
+		res[zero] = v
+		for k := range res {
+			res[k] = v
+		}
+	}
+	if !in.unchanged() {
+		in.checks = nil
+		return out + " aliased"
+	}
+	return out
+}
+
 func c03ShowMapInt[T comparable](cd c03Codec[T], m map[T]int) string {
 	ks, vs := []string{}, []string{}
 	for k, v := range m {
@@ -408,11 +441,13 @@ func c03Call[T comparable](in *c03Inputs[T], cd c03Codec[T], helper string, a []
 		}
 	case "Dedupe":
 		if need(1) {
-			return c03ShowList(cd, fpgo.Dedupe(in.slice(a[0])...))
+			res := fpgo.Dedupe(in.slice(a[0])...)
+			return c03ProbeSlice(in, res, c03ShowList(cd, res))
 		}
 	case "DropEq":
 		if need(2) {
-			return c03ShowList(cd, fpgo.DropEq(cd.parse(a[0]), in.slice(a[1])...))
+			res := fpgo.DropEq(cd.parse(a[0]), in.slice(a[1])...)
+			return c03ProbeSlice(in, res, c03ShowList(cd, res))
 		}
 	case "Drop":
 		if need(2) {
@@ -440,7 +475,8 @@ func c03Call[T comparable](in *c03Inputs[T], cd c03Codec[T], helper string, a []
 		}
 	case "DropWhile":
 		if need(2) {
-			return c03ShowList(cd, fpgo.DropWhile(pred(a[0]), in.slice(a[1])...))
+			res := fpgo.DropWhile(pred(a[0]), in.slice(a[1])...)
+			return c03ProbeSlice(in, res, c03ShowList(cd, res))
 		}
 	case "Every":
 		if need(2) {
@@ -479,7 +515,11 @@ func c03Call[T comparable](in *c03Inputs[T], cd c03Codec[T], helper string, a []
 				ks = append(ks, strconv.Itoa(key))
 				vs = append(vs, c03ShowList(cd, l))
 			}
-			return c03ShowPairs(ks, vs)
+			out := c03ShowPairs(ks, vs)
+			for _, l := range m {
+				out = c03ProbeSlice(in, l, out)
+			}
+			return out
 		}
 	case "UniqBy":
 		if need(2) {
@@ -494,7 +534,8 @@ func c03Call[T comparable](in *c03Inputs[T], cd c03Codec[T], helper string, a []
 				ks = append(ks, cd.show(key))
 				vs = append(vs, cd.show(v))
 			}
-			return c03ShowPairs(ks, vs)
+			var zv T
+			return c03ProbeMap(in, m, c03ShowPairs(ks, vs), zv)
 		}
 	case "Keys":
 		if need(1) {
@@ -514,7 +555,8 @@ func c03Call[T comparable](in *c03Inputs[T], cd c03Codec[T], helper string, a []
 		}
 	case "Merge":
 		if need(2) {
-			return c03ShowMapInt(cd, fpgo.Merge(in.mapOf(a[0]), in.mapOf(a[1])))
+			res := fpgo.Merge(in.mapOf(a[0]), in.mapOf(a[1]))
+			return c03ProbeMap(in, res, c03ShowMapInt(cd, res), -78)
 		}
 	case "IsEqual":
 		if need(2) {
@@ -534,36 +576,13 @@ func c03Call[T comparable](in *c03Inputs[T], cd c03Codec[T], helper string, a []
 		}
 	case "DuplicateSlice":
 		if need(1) {
-			src := in.slice(a[0])
-			dup := fpgo.DuplicateSlice(src)
-			out := c03ShowList(cd, dup)
-			// "a new slice": writing through the copy must not be visible through the original
-			var zero T
-			for i := range dup {
-				dup[i] = zero
-			}
-			dup = append(dup, zero, zero, zero)
-			if !in.unchanged() {
-				out += " aliased"
-				in.checks = nil
-			}
-			return out
+			res := fpgo.DuplicateSlice(in.slice(a[0]))
+			return c03ProbeSlice(in, res, c03ShowList(cd, res))
 		}
 	case "DuplicateMap":
 		if need(1) {
-			src := in.mapOf(a[0])
-			dup := fpgo.DuplicateMap(src)
-			out := c03ShowMapInt(cd, dup)
-			var zero T
-			dup[zero] = -77
-			for k := range dup {
-				dup[k] = -78
-			}
-			if !in.unchanged() {
-				out += " aliased"
-				in.checks = nil
-			}
-			return out
+			res := fpgo.DuplicateMap(in.mapOf(a[0]))
+			return c03ProbeMap(in, res, c03ShowMapInt(cd, res), -78)
 		}
 	}
 	return "bad-case"
